@@ -6,7 +6,7 @@ TECH = "contract-based deductive verification of the real code: weakest-precondi
 
 CLAIMED = {
  "C04": ("proof", "Pool discipline of the schema-validation path as contracts: every constructor re-initialises every field of a borrowed validator (init-complete, two-copy non-interference), a borrowed Result is cleared, every write goes to a pool/fresh object, the receiver's own subtree or a declared location (write-ok, call-effects), nothing is used after it was redeemed (live), redeem happens exactly once (preconditions of the Redeem* functions). Proof-level for the functions under contract (pools, Result, leaf validators, SchemaValidator, schemaSliceValidator, objectValidator and schemaPropsValidator with their helpers, items/header/parameter validators, constructors, AgainstSchema); obligations that do not discharge on the unchanged tree (mainly the call sites of schemaPropsValidator.Validate, its constructor and redeemChildren) are listed in the evidence as unproven and are not claimed; spec validation (spec.go, default/example validators) is not covered.", "§11.3"),
- "C05": ("proof", "The ownership half of race freedom, for all schedules because it is per-call: a validation writes only objects it owns exclusively (borrowed from a sync.Pool or freshly allocated, or the subtree of the validator it was called on), never reads an object after redeeming it, and the regexp cache publishes only immutable maps built under the mutex (C15 contracts). Sharing of one long-lived validator between goroutines is covered by the C08 obligations (no write to self without recycling). Not covered: the package-level default options (D9, see DESIGN §11.5) and spec validation.", "§11.3"),
+ "C05": ("proof", "The ownership half of race freedom, for all schedules because it is per-call: a validation writes only objects it owns exclusively (borrowed from a sync.Pool or freshly allocated, or the subtree of the validator it was called on), never reads an object after redeeming it, and the regexp cache publishes only immutable maps built under the mutex (C15 contracts). Sharing of one long-lived validator between goroutines is covered by the C08 obligations (no write to self without recycling). Not covered: the package-level default options (D9, see DESIGN §11.5) and spec validation. The package-level defaults are declared `guarded defaultOpts by defaultOptsMutex`: every load and store of that variable carries the obligation that the mutex is held (SetContinueOnErrors, NewSpecValidator; this exposed and led to the repair of D9).", "§11.3"),
  "C06": ("proof", "No-panic sweep: for every function reachable from AgainstSchema / NewSchemaValidator / (*SchemaValidator).Validate the generator emits a safety obligation for each nil dereference, index, slice bound, type assertion, division, map write, reflect call and explicit panic; callers are checked against callee preconditions. Proof-level for the obligations that discharge; the rest are listed as unproven in the evidence and not claimed. Termination is not proved (partial correctness).", "§11.4"),
  "C07": ("proof", "No-panic sweep over the functions reachable from Spec / NewSpecValidator / (*SpecValidator).Validate, with the spec-validation code now under contract: specReady / defReady / exReady (document, analyzer, options and visited set are non-nil) are preconditions of every rule checker and proved at every call site, checkers promise mergeable results, expandResponseRef promises `response != nil or the result carries an error`, the visited-set contracts (resetVisited empties the set; a schema walk returns nil exactly for a nil schema or a visited/overlapping path) make the `red.wantsRedeemOnMerge` dereferences provable, and frames are `modifies * preserves SpecValidator, defaultValidator, exampleValidator` (one obligation per field heap). Calls into go-openapi/spec, analysis and loads go through assumed contracts and a stated frame rule (they do not write fields of this package's structs); two string-valued contracts (isVisited's overlap heuristic, responseMsgVariants) are trusted. Undischarged obligations (nil-ness inside library data) are listed as unproven, not claimed.", "§11.5, §11.10"),
  "C08": ("proof", "Statelessness of validators built without recycling as a postcondition: when Options.recycleValidators is false, Validate leaves every field of the receiver (and the elements of the child lists it owns) unchanged, and the effects discipline forbids writes to any other pre-existing object; results are fresh or borrowed. Functions under contract as for C04.", "§11.3"),
